@@ -5,7 +5,12 @@ cd /verif || exit 2
 ALL="C03 C05 C06 C07 C12 C13 C14 C15 C19 C20"
 OUT=/verif/seeded/RESULTS.tsv
 [ "$1" = "all" ] && OUT=/verif/seeded/RESULTS-all.tsv
-: > $OUT.tmp
+# the simulator sources are snapshotted first, so that edits under /verif/sim during a long run cannot disturb it
+SNAP=/tmp/try/msnap.$$
+mkdir -p $SNAP; cp -r sim run.sh known_findings.json $SNAP/ || exit 2
+export VERIF_RUNNER=$SNAP/run.sh
+TMP=$OUT.tmp.$$
+: > $TMP
 for d in seeded/*${ONLY:-}*/; do
   name=$(basename $d); prop=${name%%-*}
   case "$prop" in C[0-9]*) ;; *) prop=$(python3 -c "import json,sys; print(json.load(open('$d/meta.json'))['property'])" 2>/dev/null);; esac
@@ -14,18 +19,20 @@ for d in seeded/*${ONLY:-}*/; do
   tools/try_seed.sh $d $props > /tmp/try/matrix.$name.log 2>&1
   pre=$(grep -c "as required" /tmp/try/matrix.$name.log)
   grep "^check " /tmp/try/matrix.$name.log | while read -r _ p _ code rest; do
-    printf "%s\t%s\t%s\t%s\t%s\n" "$name" "${p%:}" "$code" "$pre/3 preconditions" "$(echo "$rest" | cut -c1-160)" >> $OUT.tmp
+    printf "%s\t%s\t%s\t%s\t%s\n" "$name" "${p%:}" "$code" "$pre/3 preconditions" "$(echo "$rest" | cut -c1-160)" >> $TMP
   done
 done
-python3 - "$OUT" <<'PYEOF'
+rm -rf $SNAP
+python3 - "$OUT" "$TMP" <<'PYEOF'
 import sys,os
 out=sys.argv[1]
-new=[l for l in open(out+".tmp")]
+tmp=sys.argv[2]
+new=[l for l in open(tmp)]
 names={l.split("\t")[0] for l in new}
 old=[l for l in open(out)] if os.path.exists(out) else []
 keep=[l for l in old if l.split("\t")[0] not in names]
 rows=sorted(keep+new)
 open(out,"w").writelines(rows)
-os.remove(out+".tmp")
+os.remove(tmp)
 PYEOF
  cat $OUT
